@@ -104,9 +104,8 @@ Definition mutate_sub (render : tv -> string) (e : env) (self : ref) (sub : subs
   | None => inl MEMapping
   | Some _ =>
       let sourceRef := eff_ref e self (s_src sub) in
-      (* "Re-check to catch sources with implicit namespace": the code
-         compares sub.SourceRef, not the defaulted sourceRef *)
-      if ref_eqb self (s_src sub) then inl MESelfRef
+      (* re-check to catch sources with implicit namespace *)
+      if ref_eqb self sourceRef then inl MESelfRef
       else match get_object e sourceRef with
            | None => inl MEGetSource
            | Some src =>
